@@ -96,7 +96,21 @@ var vC10Cases = []vC10Case{
 		}
 		return v[:vConcretize(n)]
 	}},
+	// every argument position depends on the row (keys differ from row to row)
+	{"split(join(K, 'p', V), K)[1]", c10Text, ",;", "xy", 0, 2, func(k, v []byte) any { return v }},
+	{"len(split(V, K))", c10Int, "a,", "a,", 0, 3, func(k, v []byte) any { return int64(vConcretize(vCountByte(v, k[0]) + 1)) }},
+	{"join(K, V, 'x')", c10Text, "ab", "xy", 0, 2, func(k, v []byte) any { return vCat(vCat(v, k), []byte("x")) }},
+	{"list(int(V), strlen(K))[1]", c10Int, "ab", "019", 1, 1, func(k, v []byte) any { return int64(len(k)) }},
+	{"int_list(strlen(K), int(V))[0]", c10Int, "ab", "019", 1, 1, func(k, v []byte) any { return int64(len(k)) }},
+	{"l2_distance(list(strlen(K), 2), list(int(V), 4))", c10Float, "ab", "0123", 1, 1, func(k, v []byte) any {
+		x := float64(vC10Int(v))
+		d0, d1 := math.Abs(float64(len(k))-x), math.Abs(2-4.0)
+		return math.Sqrt(d0*d0 + d1*d1)
+	}},
 }
+
+// cases whose key argument is a separator: never empty
+var vC10KMin = map[string]int{"split(join(K, 'p', V), K)[1]": 1, "len(split(V, K))": 1}
 
 func VN_C10(tier int) int { return len(vC10Cases) }
 
@@ -149,7 +163,7 @@ func VH_C10(ci, variant, n, B int) {
 	}
 	vLazyFormat(lazy)
 	if variant == 0 {
-		st := vSymStore(n, 0, 1, c.vmin, c.vmax, c.kalpha, c.valpha)
+		st := vSymStore(n, vC10KMin[c.expr], 1, c.vmin, c.vmax, c.kalpha, c.valpha)
 		q := "select key, " + vSubst(c.expr, "key", "value") + " where key >= ''"
 		for mode := 0; mode < 2; mode++ {
 			p, err := NewOptimizer(q).BuildPlan(st.clone())
@@ -189,7 +203,7 @@ func VH_C10(ci, variant, n, B int) {
 	if c.valpha == "" {
 		alpha = vLitAlpha
 	}
-	tk, k := vLit("K", 0, 1, c.kalpha)
+	tk, k := vLit("K", vC10KMin[c.expr], 1, c.kalpha)
 	tv, v := vLit("V", c.vmin, c.vmax, alpha)
 	st := vNewStoreFrom([][]byte{[]byte("a")}, [][]byte{[]byte("x")})
 	q := "select key, " + vSubst(c.expr, tk, tv) + " where key >= ''"
